@@ -25,7 +25,8 @@ def _stmts_blocks(fn):
 
 
 def _is_call_stmt(s, ftext):
-    return isinstance(s, ast.Expr) and isinstance(s.value, ast.Call) and u(s.value.func) == ftext
+    # `L.pop()` as a statement, or its value used in the same simple statement (`top = L.pop()`)
+    return isinstance(s, (ast.Expr, ast.Assign, ast.AnnAssign, ast.AugAssign)) and any(isinstance(x, ast.Call) and u(x.func) == ftext for x in ast.walk(s))
 
 
 @rule("C03.R1", "parser_stack and no_expand move in lock-step (every push/pop paired in the same block)")
@@ -78,6 +79,13 @@ def r2(ctx):
     ctx.check(ok, "preprocessor:MacroExpander.overflow_check:raises-at-bound", f"must raise MacroExpandOverflow exactly when the frame stack reaches max_level: {[p.describe() for p in paths]}", oc.loc())
     init = me.find_method("__init__")
     lv = [s.value for s in init.node.body if isinstance(s, ast.Assign) and u(s.targets[0]) == "self.max_level"]
+    if len(lv) == 1 and isinstance(lv[0], ast.Name):
+        # an optional parameter that nothing passes holds its default
+        from ..decision import _unpassed_new_defaults
+
+        dflt = _unpassed_new_defaults(init)
+        if lv[0].id in dflt:
+            lv = [ast.Constant(value=dflt[lv[0].id])]
     ok = len(lv) == 1 and isinstance(lv[0], ast.Constant) and isinstance(lv[0].value, int) and 15 <= lv[0].value <= 100000
     ctx.check(ok, "preprocessor:MacroExpander.__init__:max_level-finite", f"max_level must be a finite integer constant >= 15 (C minimum nesting): {[u(x) for x in lv]}", init.loc())
     # every method that appends a frame calls overflow_check
@@ -480,8 +488,19 @@ def r10(ctx):
                     ctx.check(isinstance(s.value, ast.Constant) and s.value.value is True, f"{f.key}:arg_needs_expansion:{u(s)}", f"`{u(s)}` lowers the needs-pre-expansion flag of a parameter: a parameter used both plainly and as an operand of ## must still be pre-expanded for its plain use", f.loc(s))
     ctx.check(n >= 1, "preprocessor:Macro.preproc_replacement:raises-flag", "no site raises arg_needs_expansion", pr.loc())
     init = repo.cls("preprocessor", "MacroFunction").find_method("__init__")
-    ok = any(isinstance(s, ast.Assign) and u(s.targets[0]) == "self.arg_needs_expansion" and u(s.value) == "[False for x in self.args]" for s in init.node.body)
-    ctx.soft(ok, "preprocessor:MacroFunction.__init__:flags-start-false", "arg_needs_expansion must start False for every parameter", init.loc())
+    # decision table of the constructor: on every path the flag list is one False per parameter
+    from ..spec import tab as _tab, vt as _vt
+
+    n_init = 0
+    for p in _tab(init, unroll=1):
+        st_ = {_vt(e[1]): _vt(e[2]) for e in p.effects if e[0] == "store"}
+        fl = st_.get("self.arg_needs_expansion")
+        n_init += 1
+        m = re.fullmatch(r"comp:\[False for _c0 in (.+)\]", fl or "")
+        ok = m is not None and m.group(1) in (st_.get("self.args"), init.params[2] if len(init.params) > 2 else None, "self.args")
+        ctx.check(ok, "preprocessor:MacroFunction.__init__:flags-start-false", f"arg_needs_expansion must start as one False per parameter: `{(fl or 'not set')[:80]}`", init.loc())
+    if not n_init:
+        raise AnalysisError("MacroFunction.__init__: no path")
     # (b) in the ## arm: whenever an operand is a parameter (which_arg != -1) the tokens are kept for call time AND has_strcat is set
     arms = [s for s in walk_no_nested(pr.node) if isinstance(s, ast.If) and "arg_idx != -1" in u(s.test) or (isinstance(s, ast.If) and "which_arg" in u(s.test) and "!= -1" in u(s.test))]
     hash_if = [s for s in walk_no_nested(pr.node) if isinstance(s, ast.If) and u(s.test) == "tok.token == '##'"]
